@@ -218,6 +218,11 @@ func runC03(c *Ctx) {
 	c.inmemFreshVersions(im, "C03.R7")
 	c.redisFreshVersions(rd, "C03.R7")
 	c.R.Floor("C03.R7", 8)
+	c.redisKeyInjective(rd, "C03.R9")
+	c.redisKeysMapped(rd, "C03.R10")
+	c.R.Floor("C03.R10", 7)
+	c.redisNonEmptyBatches(rd, "C03.R11")
+	c.R.Floor("C03.R11", 2)
 }
 
 func runC06(c *Ctx) {
